@@ -109,7 +109,9 @@ package ws
 //@ func (*listener).GetOption
 //@   ensures n == OptionWebSocketMux ==> isnil(result1)
 //@   ensures n == OptionWebSocketHandler ==> isnil(result1) && l.running && l.noserve
-//@   ensures n != OptionWebSocketHandler ==> unchanged(l.running, l.noserve)
+//@   ensures n == OptionWebSocketMux ==> unchanged(l.running, l.noserve)
+//@   ensures n == OptionWebSocketCheckOrigin ==> unchanged("call:Lock#2", l.running, l.noserve)
+//@   ensures n != OptionWebSocketHandler && n != OptionWebSocketMux && n != OptionWebSocketCheckOrigin ==> unchanged("call:Lock#3", l.running, l.noserve)
 //@   ensures n == OptionWebSocketCheckOrigin ==> isnil(result1) && is_bool(result0)
 //@
 //@ func (wsTran).NewDialer
